@@ -3,6 +3,7 @@ package types
 import (
 	"fmt"
 	"strconv"
+	"unicode/utf8"
 
 	"github.com/lyraproj/issue/issue"
 	"github.com/lyraproj/pcore/px"
@@ -142,12 +143,17 @@ type parser struct {
 func (p *parser) location(fileName string) issue.Location {
 	col := p.sr.Column()
 	if p.lt != nil {
-		col -= len(p.lt.s)
+		// the last token was read in full: step back to where it started (columns count characters, not bytes)
+		col -= utf8.RuneCountInString(p.lt.s)
+		if col < 0 {
+			col = 0
+		}
 	}
 	return issue.NewLocation(fileName, p.sr.Line(), col)
 }
 
 func (p *parser) nextToken() *token {
+	p.lt = nil // an error raised by the lexer is located where the reader stopped
 	t := nextToken(p.sr)
 	p.lt = t
 	return t
